@@ -27,6 +27,7 @@ def mixed_workload(tier, rng, scale=1):
     cases += sample(rng, gen_dec.random_histories("quick", rng, 40 * k, with_pending=True), 40 * k)
     cases += sample(rng, gen_misc.gen_c16("quick", rng), 60 * k)
     cases += sample(rng, gen_bld.gen_c13("quick", rng), 12 * k)
+    cases += gen_dec.gen_length_extremes(rng)
     cases += gen_dec.gen_overdeclared_segments("quick", rng, 12 * k)       # reads behind an exactly sized frame would reach a delivered packet
     cases += sample(rng, [c for c in gen_misc.gen_c14("quick", rng) if set(c.tags) & {"no-shared-state", "wire-packet-modified-in-place"}], 16 * k)
     for c in cases:
